@@ -179,6 +179,24 @@ def explore(ctx):
                 oracle(ctx, on, off, o1, o2, mode='each')
                 if not (o1.diverged or o2.diverged):
                     each.append((driver.coq_scenario(on, o1.perm), o1.out, on))
+    # a pass whose new() rewrites the file (as the lines pass does when it reformats) and whose candidates are then all
+    # rejected: what is remembered for the replay is the file as the pass LEFT it
+    for nn in (1, 2):
+        for body, fix in (('abc', 'ab'), ('a b c', 'abc')):
+            sc = {'files': [('f0.c', body)], 'rules': [([('has', 0, 'a'), ('has', 0, 'b')], 0)],
+                  'passes': [{'key': 1, 'ops': [('delch', 'a'), ('delch', 'b')], 'aos': 0, 'maxt': None, 'newfix': fix},
+                             {'key': 2, 'ops': [('set', body)], 'aos': 1, 'maxt': None, 'newfix': None},
+                             {'key': 1, 'ops': [('delch', 'a'), ('delch', 'b')], 'aos': 0, 'maxt': None, 'newfix': fix}],
+                  'cfg': {'N': nn, 'no_cache': False}, 'sched': [1] * 30}
+            on = dict(sc, cfg=dict(sc['cfg'], no_cache=False))
+            off = dict(sc, cfg=dict(sc['cfg'], no_cache=True))
+            o1 = driver.run_scenario(on, ctx.tmp)
+            o2 = driver.run_scenario(off, ctx.tmp)
+            ctx.evaluations += 2
+            ctx.count('replay-after-rewrite-in-new-without-accept')
+            oracle(ctx, on, off, o1, o2, mode='each')
+            if not (o1.diverged or o2.diverged):
+                each.append((driver.coq_scenario(on, o1.perm), o1.out, on))
     # bytes that a text-mode round trip would change (CR, CR LF, bytes that are not UTF-8, NUL): what a replay writes must be
     # byte for byte what the pass produced
     for body in ('a\r\nb\ra\r', 'a\xff\r\n\xe9a\x00z', '\r\na\n\ra'):
